@@ -623,6 +623,11 @@ func (w *World) StateKey(symmetry bool) string {
 		sb.WriteString("[")
 		for _, t := range j.Tasks {
 			fmt.Fprintf(&sb, "%s=%s,%v,%v,%v;", t.Name, t.Status, t.Errored, t.Canceled, t.HasEnd)
+			if t.Allow || len(t.Deps) > 0 {
+				// the job's own snapshot of what decides its future: allow_failure and the dependencies of each task
+				// (after a reload jobs of one pipeline differ in them)
+				fmt.Fprintf(&sb, "{%v<-%s}", t.Allow, strings.Join(t.Deps, "+"))
+			}
 		}
 		sb.WriteString("]")
 		sb.WriteString(j.Stages)
